@@ -1,7 +1,7 @@
 """C06 - implicit (incomplete eigenvectors) mode equals the explicit computation."""
 from .common import Decision, run_units
 from .series_props import specs_evals, specs_wiring, fold_canaries
-from .format_props import specs_projection
+from .format_props import specs_projection, specs_linalg_misc
 from .relational_common import NAT_LEAN, NAT_LEAN_NH, NAT_NOTE, INSTANCE_NOTE
 
 LP = "contracts.linalg_projector"
@@ -11,14 +11,14 @@ def check(tier, seed):
     d = Decision("C06", tier, seed)
     t = 60000 if tier == "thorough" else 10000
     specs = (specs_projection(tier, implicit_only=True) + [(LP, "unit_projector", {"variant": v, "timeout_ms": t}) for v in ("left-none", "left-same", "left-other")]
-             + specs_evals(tier) + specs_wiring(tier))
+             + specs_evals(tier) + specs_wiring(tier) + specs_linalg_misc(tier))
     try:
         from .implicit_props import specs_direct
         specs += specs_direct(tier)
     except ImportError:
         pass
     d.add_units(fold_canaries(run_units(specs)))
-    d.add_lean(NAT_LEAN + NAT_LEAN_NH + ["PV.Direct.greens_solves", "PV.Direct.constrained_injective"])
+    d.add_lean(NAT_LEAN + NAT_LEAN_NH + ["PV.Direct.greens_solves", "PV.Direct.constrained_injective", "PV.Direct.matrix_greens_solves", "PV.Direct.matrix_constrained_injective"])
     d.assumptions += [NAT_NOTE,
                       INSTANCE_NOTE + "the embedding of the explicit computation into the ambient space (last block compressed by Q = 1 - R_E L_E^dagger) is a homomorphism "
                       "that commutes with products, adjoints and the block structure; it commutes with the Sylvester solver iff the implicit solver meets its contract",
